@@ -35,9 +35,16 @@ def parse_bindings(text: str):
         if cur is axes:
             val = val.strip()
             if val.startswith("("):
+                # a '*name' binding (printed without the star): kept under '*name', plain and variadic names being
+                # separate namespaces.  A name printed twice with the same kind of value would be a collision.
                 inner = val.strip("()").strip()
-                cur[name] = tuple(int(x) for x in inner.split(",") if x.strip()) if inner else ()
+                key = "*" + name
+                if key in cur:
+                    cur[key + "#dup"] = "printed twice"
+                cur[key] = tuple(int(x) for x in inner.split(",") if x.strip()) if inner else ()
             else:
+                if name in cur:
+                    cur[name + "#dup"] = "printed twice"
                 cur[name] = int(val)
         else:
             cur[name] = val
